@@ -219,19 +219,25 @@ pub fn run_buf_history(ops: &[BOp], log: &mut Digest) -> Result<BufStats, (usize
 
 /// Seeded fragment history for one buffer (several datagrams through
 /// recycling), including inconsistent fragments.
-pub fn gen_buf_history(r: &mut Rng) -> Vec<BOp> {
+pub fn gen_buf_history(r: &mut Rng, tiny: bool) -> Vec<BOp> {
     let mut ops = Vec::new();
     let rounds = r.usize_range(1, 3);
     for round in 0..rounds {
         if round > 0 {
             ops.push(BOp::Recycle { ip_number: r.u8() });
         }
-        let len = match r.below(16) {
+        let len = if tiny {
+            // Miri configuration: small datagrams only (the per-operation
+            // invariant checks are linear in the datagram size)
+            r.usize_range(9, 200)
+        } else {
+            match r.below(16) {
             0 | 1 => r.usize_range(9, 40),
             2 | 3 => r.usize_range(2_000, 9_000),
             // the largest datagrams offset and length fields allow
             4 => *r.pick(&[65_535usize, 65_535, 65_534, 65_528, 65_529, 65_520]),
             _ => r.usize_range(9, 400),
+            }
         };
         let payload = r.bytes(len);
         let units = len.div_ceil(8);
@@ -277,6 +283,7 @@ pub fn gen_buf_history(r: &mut Rng) -> Vec<BOp> {
                     3 => BOp::Add { off8: r.usize_range(0, units) as u16, more: true, data: r.bytes(r.clone().usize_range(1, 7)) },
                     4 => BOp::Add { off8: 8191, more: r.bool(), data: r.bytes(8 * r.clone().usize_range(1, 3)) },
                     5 => BOp::Add { off8: r.usize_range(0, units + 2) as u16, more: r.bool(), data: Vec::new() },
+                    _ if tiny => BOp::Add { off8: 8190, more: true, data: r.bytes(24) },
                     _ => BOp::Add { off8: 0, more: true, data: r.bytes(65_536) },
                 };
                 list.push(bad);
